@@ -1008,9 +1008,15 @@ func c08Script(run c08run, resetAfter map[int]bool, idleEvery bool) string {
 		if k > 0 && cl.idleFactor > 0 {
 			items = append(items, fmt.Sprintf("T%d", cl.idleFactor*run.plan.timeoutOf(k-1)+15)) // idle gap
 		}
-		if cl.writeFail || cl.writeFailFinal || (run.plan.faultAt > 0 && k >= run.plan.faultAt) {
-			// the id is consumed, then the call fails at once (write error / transport error)
+		if cl.writeFail || cl.writeFailFinal {
+			// the id is consumed, then the call fails at once (write error)
 			items = append(items, fmt.Sprintf("C%d", tmo), "X")
+			emitPhase(2*k, true)
+			emitPhase(2*k+1, false)
+		} else if run.plan.faultAt > 0 && k >= run.plan.faultAt {
+			// the request is written, the caller starts polling and the transport error reaches it:
+			// it gets the error, or a message that was filed under its id before the transport died
+			items = append(items, fmt.Sprintf("C%d", tmo), "P", "X")
 			emitPhase(2*k, true)
 			emitPhase(2*k+1, false)
 		} else {
@@ -1446,10 +1452,15 @@ func runC08(c *ctx) {
 				if !cl.writeFail && !cl.writeFailFinal {
 					what = "the transport fails every read"
 				}
-				if o.class == "nil" {
+				stored := false // a message was filed under this id before the transport died
+				if o.class == "nil" && !cl.writeFail && !cl.writeFailFinal && L.model[k] != "T" {
+					mb, _ := vlib.UnHex(L.model[k])
+					stored = bytes.Equal(c08TrimLF(mb), c08TrimLF(o.raw))
+				}
+				if o.class == "nil" && !stored {
 					fails = append(fails, fail{"oracle", desc + fmt.Sprintf(": returned %q although %s (a call returns the reply to its own request or an error); session %s", o.raw, what, p.name), "reply-from-nowhere"})
 				}
-				if L.model[k] != "T" || L.spec[k] != "T" {
+				if ((cl.writeFail || cl.writeFailFinal) && L.model[k] != "T") || L.spec[k] != "T" {
 					fails = append(fails, fail{"machinery", desc + ": model/spec do not fail a call that cannot be answered: " + ans, "model-failed-call"})
 				}
 				continue
